@@ -8,11 +8,12 @@ repository.  The line-level functions the Gallina model is parameterised by (`li
 instantiated, per case, by finite tables recorded from the REAL functions during that very call
 (fail closed on a missing entry), so the check is independent of Compiler/ParseLine.v.
 
-Model version (Compiler/ParseBlocks.v carries the flags `fixed`, `cap`): BARDIC_C11B_VARIANT = auto (default:
-read off the tree under test), fixed (/repo + proposed_fixes/F11a-legacy-if-unclosed.diff +
-F11b-block-depth-limit.diff: what the unsuffixed names of ParseBlocks.v stand for), `a` (F11a only) or
-`current` (the unpatched code: legacy `<<if x` / `<<elif x` headers leave `condition` unassigned, no nesting
-limit).  Whatever the version, the direct oracle reports every escape with an internal error.
+Model version (Compiler/ParseBlocks.v carries the parameters `fixed`, `cap`): BARDIC_C11B_VARIANT = auto
+(default: read off the tree under test), fixed (/repo as of 623c615: legacy headers without `>>` diagnosed,
+glue honoured by every text flush of an @if branch, leading comment lines of a loop body dropped before
+dedenting, nesting cap 100 - what the unsuffixed names of
+ParseBlocks.v stand for), `a` (the same without the cap) or `current` (45ce265, before those commits).
+Whatever the version, the direct oracle reports every escape with an internal error.
 """
 from __future__ import annotations
 
@@ -611,6 +612,17 @@ CORPUS = [
     ("py", ["<<py", "  a = 1", "", " b = 2"], 0),
     ("py", ["@py:", "  a = 1", "   b", "@endpy"], 0),
     ("py", ["@py", "@endpy"], 0),
+    # glue on the text line before each kind of directive / block / jump / choice (b0767bb)
+    ("cond", ["@if a:", "  one<>", "  ~ n = 1", "  two<>  ", "  -> T", "@endif"], 0),
+    ("cond", ["@if a:", "one <>", "@render card(x)", "two<>", "@input name=\"n\"", "three<>", "@hook turn_end T", "4<>",
+              "@unhook turn_end T", "5<>", "+ [c] -> T", "6<>", "@py:", "x = 1", "@endpy", "7<>", "@if b:", "8<>", "@endif",
+              "9<>", "@for i in xs:", "10<>", "@endfor", "11<>", "@endif"], 0),
+    ("loop", ["@for i in xs:", "  @if a:", "    x<>", "    ~ n = 1", "    y<> // c", "  @else:", "    z<>", "  @endif", "@endfor"], 0),
+    # comment / blank lines at the head of a loop body (623c615)
+    ("loop", ["@for x in xs:", "# note", "", "    item", "  # later comment", "    more", "@endfor"], 0),
+    ("loop", ["@for x in xs:", "  ", "#a", "   #b", "", "      deep", "  shallow", "@endfor"], 0),
+    ("loop", ["@for x in xs:", "# only a comment", "@endfor"], 0),
+    ("loop", ["@for x in xs:", "# c", "  @for y in ys:", "  # inner", "      t", "  @endfor", "@endfor"], 0),
     ("cond", ["@if a:", "x", "@else", "y", "@endif"], 0),
     ("cond", ["@if a:", "x", "@elsewhere:", "y", "@endif"], 0),
     ("cond", ["@if a:", "x", "@else: // c", "y<>", "<<endif>> tail"], 0),
@@ -648,17 +660,27 @@ def run(tier: str, seed: int) -> int:
     import bardic.compiler.parsing.core as core
     install(blocks)
     rng = chk.rng
-    # which of the three documented versions of blocks.py is under test (see the module docstring);
-    # `auto` reads it off the tree: the two candidate fixes are recognisable by their diagnostics
+    # which documented version of blocks.py is under test (see the header of Compiler/ParseBlocks.v);
+    # `auto` reads it off the tree: each fix is recognisable by a name or a diagnostic it introduced
     variant = os.environ.get("BARDIC_C11B_VARIANT", "auto")
     if variant == "auto":
         import inspect
-        has_a = "<<if statement missing >>" in inspect.getsource(blocks.extract_conditional_block)
-        has_b = hasattr(blocks, "MAX_BLOCK_DEPTH")
+        has_a = "<<if statement missing >>" in inspect.getsource(blocks.extract_conditional_block)   # 2da11ec
+        has_glue = hasattr(blocks, "_append_text_lines")                                            # b0767bb
+        has_b = hasattr(blocks, "MAX_BLOCK_DEPTH")                                                  # 179a3c4
+        has_lc = "del loop_raw_lines[first]" in inspect.getsource(blocks.extract_loop_block)        # 623c615
     else:
-        has_a, has_b = {"fixed": (True, True), "a": (True, False), "current": (False, False)}[variant]
-    variant = {(True, True): "fixed", (True, False): "a", (False, False): "current"}.get((has_a, has_b), "F11b-without-F11a")
-    vargs = f"{coq_bool(has_a)} {'(Some max_block_depth)' if has_b else 'None'}"
+        has_a, has_glue, has_b = {"fixed": (True, True, True), "a": (True, True, False),
+                                  "current": (False, False, False)}[variant]
+        has_lc = has_a
+    if not (has_a == has_glue == has_lc):
+        # the model's `fixed` flag stands for the three conditional/loop-extractor fixes together
+        chk.disagree("version", "blocks.py has some but not all of the fixes 2da11ec / b0767bb / 623c615: "
+                     "no version of Compiler/ParseBlocks.v corresponds to this tree",
+                     {"has_2da11ec": has_a, "has_b0767bb": has_glue, "has_623c615": has_lc})
+    has_glue = has_glue and has_lc
+    variant = {(True, True): "fixed", (True, False): "a", (False, False): "current"}.get((has_a and has_glue, has_b), "cap-only")
+    vargs = f"{coq_bool(has_a and has_glue)} {'(Some max_block_depth)' if has_b else 'None'}"
     bad_fn, show_fn = f"(case_bad_v {vargs})", f"case_show_v {vargs}"
     n_blocks, n_join, n_mis, n_repo, maxdepth = (380, 90, 30, 260, 4) if tier == "quick" else (5000, 900, 200, 4000, 5)
 
